@@ -160,7 +160,7 @@ func main() {
 		}
 	}
 	if o.Replay == "" {
-		quotaProbe(rep, w)
+		quotaProbe(rep, w, o.Driver)
 	}
 	rep.Finish()
 }
@@ -220,6 +220,9 @@ func play(rep *hx.Report, w *world.World, o *hx.Opts, c cell, idx int) {
 	if c.quota > 0 {
 		cfg.Delivery.QuotaEnabled = true
 		cfg.Delivery.QuotaLimit = 1 << 30
+		if c.quota == 2 {
+			cfg.Delivery.QuotaLimit = 10 // less than any message: whatever the store holds, the recipient is over quota
+		}
 	}
 	token := fmt.Sprintf("c17tok%d", seq)
 	sv := spamVariants[c.spam]
@@ -270,13 +273,15 @@ func play(rep *hx.Report, w *world.World, o *hx.Opts, c cell, idx int) {
 	q := []string{fmt.Sprintf("p.rcpt %s %s 3 %d %s %s %s", al, b(c.reject), fillers, hx.H(addr), b(cl.isRole), b(cl.userIn)),
 		fmt.Sprintf("p.folder %s %s %s", hx.H(folder), optH(sv.rs), optH(sv.ss)),
 		fmt.Sprintf("p.owner %s %s %s", hx.H(strings.ToLower(addr[:strings.LastIndex(addr+"@", "@")])+strings.ToLower(addr[strings.LastIndex(addr+"@", "@"):])), b(cl.isRole), b(cl.dis)),
-		fmt.Sprintf("p.size 600 %d", len(msg))}
+		fmt.Sprintf("p.size 600 %d", len(msg)),
+		fmt.Sprintf("p.quota %s %d 0 %d", b(cfg.Delivery.QuotaEnabled), cfg.Delivery.QuotaLimit, len(msg))}
 	m, err := hx.RunModel(o.Driver, q)
 	if err != nil {
 		rep.Violate("broken-correspondence", "driver", err.Error(), nil)
 		return
 	}
 	wantRcpt, wantFolder, wantOwner, sizeOk := m[0], hx.UnH(m[1]), m[2], m[3] == "true"
+	quotaOK := m[4] == "true" || strings.HasPrefix(wantOwner, "role:") // role mailboxes have no quota
 	desc := fmt.Sprintf("allowed_domains=%v reject_unknown_user=%v recipient=%s(%s) recipients-before=%d size=%d quota=%d spam=%s default_folder=%s", cfg.Delivery.AllowedDomains, c.reject, addr, cl.name, fillers, len(msg), c.quota, sv.name, folder)
 	rep.Case(c.line(), wantRcpt == "250")
 	rep.Hit("class:" + cl.name)
@@ -320,6 +325,8 @@ func play(rep *hx.Report, w *world.World, o *hx.Opts, c cell, idx int) {
 		wantData = "554"
 	} else if wantOwner == "none" {
 		wantData = "550"
+	} else if !quotaOK {
+		wantData = "552"
 	}
 	rep.Hit("data:" + got)
 	if got != wantData {
@@ -442,17 +449,59 @@ func userExists(w *world.World, email string) bool {
 	return n > 0
 }
 
-// quotaProbe: finding C17-F1 — quota enabled and exceeded, the message is accepted all the same
-func quotaProbe(rep *hx.Report, w *world.World) {
-	cfg := config.DefaultConfig()
-	cfg.LMTP.Timeout = 3
-	cfg.Delivery.QuotaEnabled = true
-	cfg.Delivery.QuotaLimit = 10
-	msg := "From: s@example.org\r\nTo: r@example.com\r\nSubject: quota probe\r\n\r\n" + strings.Repeat("x", 200) + "\r\n"
-	out := w.LMTPCfg(cfg, "LHLO c\r\nMAIL FROM:<s@example.org>\r\nRCPT TO:<alice@example.com>\r\nDATA\r\n"+msg+".\r\nQUIT\r\n")
-	lines := strings.Split(strings.TrimRight(out, "\r\n"), "\r\n")
-	if len(lines) >= 10 && strings.HasPrefix(lines[9], "250") {
-		rep.Finding("C17-F1", "quota_enabled with quota_limit 10: a 270-octet message for alice@example.com is answered 250 and filed (the quota is computed and logged, never enforced)", []string{"probe quota"})
+// quotaProbe: the boundary of the quota rule on the store of exactly that address — what the store holds plus the message
+// equal to the limit is accepted, one octet less of limit is refused with 552 and nothing is filed; a user with the same
+// local part in another domain is judged on its own store
+func quotaProbe(rep *hx.Report, w *world.World, driver string) {
+	mk := func(tok string, n int) string {
+		return "From: s@example.org\r\nTo: r@example.com\r\nSubject: " + tok + "\r\n\r\n" + strings.Repeat("x", n) + "\r\n"
 	}
-	rep.Hit("probe:C17-F1")
+	deliver := func(limit int64, to, msg string) string {
+		cfg := config.DefaultConfig()
+		cfg.LMTP.Timeout = 3
+		cfg.Delivery.QuotaEnabled = true
+		cfg.Delivery.QuotaLimit = limit
+		out := w.LMTPCfg(cfg, "LHLO c\r\nMAIL FROM:<s@example.org>\r\nRCPT TO:<"+to+">\r\nDATA\r\n"+msg+".\r\nQUIT\r\n")
+		lines := strings.Split(strings.TrimRight(out, "\r\n"), "\r\n")
+		if len(lines) >= 10 && len(lines[9]) >= 3 {
+			return lines[9][:3]
+		}
+		return "---"
+	}
+	user, twin := "quotab@example.com", "quotab@other.org"
+	m1, m2, m3 := mk("q1", 100), mk("q2", 50), mk("q3", 20)
+	type st struct {
+		what        string
+		limit       int64
+		to, msg     string
+		usage, size int
+	}
+	steps := []st{
+		{"first message, limit = its size", int64(len(m1)), user, m1, 0, len(m1)},
+		{"second message, limit = held + size", int64(len(m1) + len(m2)), user, m2, len(m1), len(m2)},
+		{"third message, limit one octet short", int64(len(m1) + len(m2) + len(m3) - 1), user, m3, len(m1) + len(m2), len(m3)},
+		{"same local part in another domain, judged on its own (empty) store", int64(len(m1) + len(m2) + len(m3) - 1), twin, m3, 0, len(m3)},
+	}
+	var ops []string
+	var got []string
+	for _, x := range steps {
+		rep.Case("quota-boundary|"+x.what, true)
+		got = append(got, deliver(x.limit, x.to, x.msg))
+		ops = append(ops, fmt.Sprintf("p.quota 1 %d %d %d", x.limit, x.usage, x.size))
+	}
+	m, err := hx.RunModel(driver, ops)
+	if err != nil {
+		rep.Violate("broken-correspondence", "driver", err.Error(), nil)
+		return
+	}
+	for i, x := range steps {
+		want := "552"
+		if m[i] == "true" {
+			want = "250"
+		}
+		if got[i] != want {
+			rep.Violate("impl-violation", "quota (Props.C17.quota_enforced)", fmt.Sprintf("%s: quota_limit %d, the store of %s holds %d octets, the message has %d: answered %s, the documented rule says %s", x.what, x.limit, x.to, x.usage, x.size, got[i], want), []string{"probe quota"})
+		}
+	}
+	rep.Hit("probe:quota-boundary")
 }
